@@ -22,6 +22,7 @@ from vlib import core
 LEVEL = "model_checking"
 ARCHS = ["mips", "mipsel", "ppc"]
 TRACE = "Trace_C06"
+XTRACE = "Trace_C06X"
 
 
 def mc(ctx):
@@ -99,9 +100,40 @@ def validate(ctx, paths, nshards, parallel=None):
     return _stats(rs)
 
 
+def run_x86(ctx):
+    """x86-64 part of the structure clause (variable-length instructions, translation windows cut instructions):
+    programs laid out from a table of encodings of known length and kind, recovered function projected to native
+    offsets, judged by Trace_C06X against Recover.tla's reachability / successor relation."""
+    q = ctx.quick
+    n, parts = (300, 2) if q else (8000, 8)
+    jobs = [("c06x", ["--mode", "random", "--n", n // parts], "x86-%d.ndjson" % i,
+             {"extra_env": {"VERIF_SEED": str(ctx.seed * 1000 + i)}}) for i in range(parts)]
+    paths = ctx.record_many(jobs, parallel=8)
+    shards = []
+    for p in paths:
+        shards += ctx.shard(p, 1 if q else 4)
+    rs = ctx.tlc_trace_many(XTRACE, shards, timeout=1700, parallel=8 if q else 16)
+    ctx.add_rejects(rs)
+    progs = sum(1 for p in paths for _ in open(p))
+    unspec = sum(1 for r in rs for pr in r.prints if pr.startswith('<<"UNSPEC"'))
+    feats = collections.Counter()
+    for p in paths:
+        for e in ctx.read_ndjson(p):
+            feats["programs"] += 1
+            feats["longer_than_one_window"] += e["size"] - e["entry"] > 64
+            feats["entry_in_the_middle"] += e["entry"] > 0
+            feats["manual_edges"] += len(e["manual"]) > 0
+            feats["instruction_straddles_window"] += any(i["a"] - e["entry"] < 64 < i["a"] - e["entry"] + i["len"] for i in e["prog"])
+            feats["lift_ok"] += "ok" in e["res"]
+    ctx.traces += progs
+    ctx.extra["x86_programs"] = progs
+    ctx.extra["x86_unspecified"] = unspec
+    ctx.extra["x86_features"] = dict(feats)
+
+
 def run(ctx):
     import time
-    ctx.build(["c06"])
+    ctx.build(["c06", "c06x"])
     mc(ctx)
     q = ctx.quick
     per_arch = 100 if q else 2000
@@ -126,6 +158,7 @@ def run(ctx):
     ctx.extra["unspecified_by_reason"] = why
     ctx.extra["lift_errors_not_judged"] = verdicts.get("structure:lifterr", 0) + verdicts.get("structure:liftpanic", 0)
     ctx.extra["template_features"] = features(paths)
+    run_x86(ctx)
     with open(paths[0]) as f:
         for line in f:
             e = json.loads(line)
@@ -144,6 +177,8 @@ def run(ctx):
         "word alone attaches to its address",
         "jal is a call: its target belongs to another function, recovery continues behind the delay slot",
         "not judged (unspecified): programs that leave the code, branches in delay slots, instructions outside Mips.tla",
+        "x86-64 part: the description of each program (instruction offsets, lengths, kinds, targets) comes from the "
+        "generator's own encoding table, not from the disassembler; only the structure clause is judged there",
     ]
 
 
@@ -154,6 +189,15 @@ def replay(ctx, path):
     rj = rep["rejection"]
     ev = rj.get("event", rj)
     inp = ctx.work + "/replay_in.ndjson"
+    if ev.get("ev") == "xstruct":
+        ctx.build(["c06x"])
+        with open(inp, "w") as f:
+            f.write(json.dumps(ev) + "\n")
+        out = ctx.record("c06x", ["--mode", "replay", "--in", inp], "replay.ndjson")
+        r = ctx.tlc_trace(XTRACE, out)
+        ctx.traces += 1
+        ctx.add_rejects(r)
+        return
     with open(inp, "w") as f:
         if ev.get("ev") == "run":
             f.write(json.dumps(rj["begin"]) + "\n")
